@@ -7,6 +7,7 @@ import (
 	"go/parser"
 	"go/token"
 	"go/types"
+	"regexp"
 	"sort"
 	"strings"
 )
@@ -24,7 +25,11 @@ import (
 //       unconstrained variables; it is exact for variables constrained by filters.
 // Hand-written checkers: the comment-formatting fix is under contract (range, replacement, freshness of the bytes).
 
-var c09Candidates = []string{"string", "[]byte", "int", "rune", "error", "*bytes.Buffer", "context.Context", "io.Reader", "*regexp.Regexp", "time.Time", "[]string", "[]int", "[]float64"}
+var c09Candidates = []string{"string", "[]byte", "int", "rune", "error", "*bytes.Buffer", "context.Context", "io.Reader", "*regexp.Regexp", "time.Time", "[]string", "[]int", "[]float64", c09Tuple}
+
+// c09Tuple stands for an operand that is a call with two results (f() where f returns (string, int)): legal as the only
+// argument of a call, e.g. fmt.Errorf(f())
+const c09Tuple = "(string, int)"
 
 const c09Prelude = `package p
 
@@ -76,6 +81,8 @@ type writerT struct{}
 func (writerT) Write(p []byte) (int, error)       { return 0, nil }
 func (writerT) WriteString(s string) (int, error) { return 0, nil }
 
+func c_two() (string, int) { return "", 0 }
+
 func probeScope() {
 }
 `
@@ -126,6 +133,12 @@ func typesAllowedBy(r *irRule, v string) ([]string, bool) {
 	return out, known
 }
 
+var qualRe = regexp.MustCompile(`(^|[^A-Za-z0-9_.$])([a-z][A-Za-z0-9_]*)\.[A-Z]`)
+
+// name -> import path of the packages the probe prelude imports (the packages rule fixes refer to)
+var c09PreludeImports = map[string]string{"bytes": "bytes", "context": "context", "errors": "errors", "fmt": "fmt", "io": "io", "http": "net/http", "httptest": "net/http/httptest",
+	"os": "os", "filepath": "path/filepath", "reflect": "reflect", "regexp": "regexp", "sort": "sort", "strings": "strings", "sync": "sync", "time": "time", "utf8": "unicode/utf8"}
+
 type c09Checker struct {
 	fset *token.FileSet
 	pkg  *types.Package
@@ -135,6 +148,9 @@ type c09Checker struct {
 
 // varName: the probe package declares one variable per candidate type; pattern variables of that type are replaced by it
 func c09VarName(t string) string {
+	if t == c09Tuple {
+		return "c_two()"
+	}
 	return "c_" + sanitize(t)
 }
 
@@ -144,9 +160,10 @@ func newC09Checker(allTypes []string) *c09Checker {
 	sb.WriteString(c09Prelude)
 	seen := map[string]bool{}
 	for _, t := range allTypes {
-		if !seen[t] {
+		if !seen[t] && t != c09Tuple {
 			seen[t] = true
 			fmt.Fprintf(&sb, "var %s %s\n", c09VarName(t), t)
+			fmt.Fprintf(&sb, "var p_%s *%s\n", sanitize(t), t)
 		}
 	}
 	f, err := parser.ParseFile(cc.fset, "probe.go", sb.String(), 0)
@@ -197,6 +214,181 @@ func (cc *c09Checker) check(pat, sug string, vars []string, tv map[string]string
 	return true, true, true, ""
 }
 
+// c09SubstText is c09Subst with the source text of some variables given explicitly.
+func c09SubstText(tmpl string, tv map[string]string, text map[string]string) string {
+	return patVarRe.ReplaceAllStringFunc(strings.ReplaceAll(tmpl, "$$", "v___"), func(m string) string {
+		name := strings.TrimPrefix(strings.TrimPrefix(m, "$"), "*")
+		if t, ok := text[name]; ok {
+			return t
+		}
+		if t, ok := tv[name]; ok {
+			return c09VarName(t)
+		}
+		return "v_" + name
+	})
+}
+
+// exprShape serialises the syntax tree of an expression, ignoring parentheses: two texts with the same shape group
+// their operands the same way.
+func exprShape(src string) (string, bool) {
+	e, err := parser.ParseExpr(src)
+	if err != nil {
+		return "", false
+	}
+	var sb strings.Builder
+	ast.Inspect(e, func(n ast.Node) bool {
+		switch n := n.(type) {
+		case nil:
+			sb.WriteString(")")
+			return true
+		case *ast.ParenExpr:
+			sb.WriteString("(") // balanced by the closing mark; carries no label, so it is removed below
+			sb.WriteString("P")
+			return true
+		case *ast.Ident:
+			sb.WriteString("(I:" + n.Name)
+		case *ast.BasicLit:
+			sb.WriteString("(L:" + n.Value)
+		case *ast.BinaryExpr:
+			sb.WriteString("(B:" + n.Op.String())
+		case *ast.UnaryExpr:
+			sb.WriteString("(U:" + n.Op.String())
+		default:
+			sb.WriteString(fmt.Sprintf("(%T", n))
+		}
+		return true
+	})
+	out := sb.String()
+	// remove parenthesis nodes: "(P" X ")" -> X
+	for {
+		i := strings.Index(out, "(P")
+		if i < 0 {
+			break
+		}
+		depth := 0
+		j := i
+		for ; j < len(out); j++ {
+			if out[j] == '(' {
+				depth++
+			} else if out[j] == ')' {
+				depth--
+				if depth == 0 {
+					break
+				}
+			}
+		}
+		out = out[:i] + out[i+2:j] + out[j+1:]
+	}
+	return out, true
+}
+
+type c09Witness struct {
+	kind string // ast node kind of the witness
+	text string
+}
+
+// compound operands of type t: well-typed expressions that are not primary expressions
+func c09Witnesses(t string) []c09Witness {
+	if t == c09Tuple {
+		return nil
+	}
+	ws := []c09Witness{{"StarExpr", "*p_" + sanitize(t)}}
+	switch t {
+	case "string", "DString", "int", "rune":
+		ws = append(ws, c09Witness{"BinaryExpr", c09VarName(t) + " + " + c09VarName(t)})
+	}
+	switch t {
+	case "int", "rune":
+		ws = append(ws, c09Witness{"UnaryExpr", "-" + c09VarName(t)})
+	}
+	return ws
+}
+
+// nodeKindAllowed: do the rule's filters let variable v be matched by a node of this kind?
+func nodeKindAllowed(r *irRule, v, kind string) bool {
+	isKind := func(f *irFilter) (string, bool) {
+		if f.Op == "FilterVarNodeIsOp" && f.Value == v && len(f.Args) == 1 {
+			return f.Args[0].Value, true
+		}
+		return "", false
+	}
+	for _, cj := range r.Where.conjuncts() {
+		if k, ok := isKind(cj); ok && k != kind && k != "Expr" {
+			return false
+		}
+		if cj.Op == "FilterNotOp" && len(cj.Args) == 1 {
+			if k, ok := isKind(cj.Args[0]); ok && (k == kind || k == "Expr") {
+				return false
+			}
+		}
+		if cj.Op == "FilterOrOp" {
+			all, any := true, false
+			for _, a := range cj.Args {
+				k, ok := isKind(a)
+				if !ok {
+					all = false
+				} else if k == kind || k == "Expr" {
+					any = true
+				}
+			}
+			if all && !any {
+				return false
+			}
+		}
+	}
+	return true
+}
+
+// parentKindExcluded: the rule does not fire when the matched node's parent is of this kind
+func parentKindExcluded(r *irRule, kind string) bool {
+	for _, cj := range r.Where.conjuncts() {
+		if cj.Op == "FilterNotOp" && len(cj.Args) == 1 && cj.Args[0].Op == "FilterRootNodeParentIsOp" && len(cj.Args[0].Args) == 1 && cj.Args[0].Args[0].Value == kind {
+			return true
+		}
+	}
+	return false
+}
+
+// parentKindRequired: the rule fires only under parents of the listed kinds (a disjunction of Parent().Is filters)
+func parentKindsRequired(r *irRule) map[string]bool {
+	for _, cj := range r.Where.conjuncts() {
+		fs := []*irFilter{cj}
+		if cj.Op == "FilterOrOp" {
+			fs = cj.Args
+		}
+		kinds := map[string]bool{}
+		for _, f := range fs {
+			if f.Op == "FilterRootNodeParentIsOp" && len(f.Args) == 1 {
+				kinds[f.Args[0].Value] = true
+			} else {
+				kinds = nil
+				break
+			}
+		}
+		if len(kinds) > 0 {
+			return kinds
+		}
+	}
+	return nil
+}
+
+// contexts in which a matched expression can stand and that bind tighter than some operators
+var c09Contexts = []struct{ parent, tmpl string }{
+	{"IndexExpr", "%s[0]"},
+	{"SliceExpr", "%s[1:]"},
+	{"SelectorExpr", "%s.String()"},
+	{"SelectorExpr", "%s.Error()"},
+	{"UnaryExpr", "-%s"},
+	{"UnaryExpr", "!%s"},
+	{"StarExpr", "*%s"},
+	{"BinaryExpr", "%s * 2"},
+	{"BinaryExpr", "2 * %s"},
+	{"BinaryExpr", "2 - %s"},
+	{"BinaryExpr", "true && %s"},
+	{"BinaryExpr", "true == %s"},
+	{"TypeAssertExpr", "%s.(fmt.Stringer)"},
+}
+
 func substVars(tmpl string) string {
 	return patVarRe.ReplaceAllStringFunc(strings.ReplaceAll(tmpl, "$$", "v___"), func(m string) string {
 		name := strings.TrimPrefix(strings.TrimPrefix(m, "$"), "*")
@@ -243,6 +435,34 @@ func init() {
 				base := fmt.Sprintf("rules/%s/rule#%d", g.Name, i+1)
 				sc := parsesAs(r.Suggest)
 				c.direct = append(c.direct, &directResult{Name: base + "/suggestion-is-go", OK: sc != "", Detail: fmt.Sprintf("the fix text %q does not parse as a Go expression or statement list (placeholders are not Go)", r.Suggest)})
+				// (6) the fix names only packages the file is known to import: packages the pattern names, or packages
+				// the rule requires the file to import
+				for _, q := range qualRe.FindAllStringSubmatch(r.Suggest, -1) {
+					path, isStd := c09PreludeImports[q[2]]
+					if !isStd {
+						continue
+					}
+					inAll := true
+					for _, pat := range r.Patterns {
+						found := false
+						for _, pq := range qualRe.FindAllStringSubmatch(pat, -1) {
+							if pq[2] == q[2] {
+								found = true
+							}
+						}
+						if !found {
+							inAll = false
+						}
+					}
+					required := false
+					for _, cj := range r.Where.conjuncts() {
+						if cj.Op == "FilterFileImportsOp" && cj.Value == path {
+							required = true
+						}
+					}
+					c.direct = append(c.direct, &directResult{Name: fmt.Sprintf("%s/fix-uses-package-%s-only-where-it-is-imported", base, q[2]), OK: inAll || required,
+						Detail: fmt.Sprintf("the fix %q refers to package %s, which the matched code does not mention and the rule does not require the file to import (m.File().Imports(%q)): applied to a file without that import the fix leaves an undefined identifier", r.Suggest, q[2], path)})
+				}
 				for j, pat := range r.Patterns {
 					pn := fmt.Sprintf("%s/pattern#%d", base, j+1)
 					pc := parsesAs(pat)
@@ -306,6 +526,85 @@ func init() {
 					ps, ss := pat, r.Suggest
 					anyTyping := false
 					bad := ""
+					badGroup, badCtx := "", ""
+					evalType := func(src string) (types.Type, error) {
+						tv, err := types.Eval(cc.fset, cc.pkg, cc.pos, src)
+						if err != nil {
+							return nil, err
+						}
+						if tv.Type == nil {
+							return nil, fmt.Errorf("no value")
+						}
+						return types.Default(tv.Type), nil
+					}
+					// (4) a compound operand keeps its grouping when it is copied into the fix
+					grouping := func(tv map[string]string) {
+						for _, v := range vars {
+							for _, w := range c09Witnesses(tv[v]) {
+								if badGroup != "" || !nodeKindAllowed(r, v, w.kind) {
+									continue
+								}
+								pw := c09SubstText(ps, tv, map[string]string{v: w.text})
+								pp := c09SubstText(ps, tv, map[string]string{v: "(" + w.text + ")"})
+								s1, ok1 := exprShape(pw)
+								s2, ok2 := exprShape(pp)
+								if !ok1 || !ok2 || s1 != s2 {
+									continue // the pattern would not bind the whole witness to $v
+								}
+								if _, err := evalType(pw); err != nil {
+									continue
+								}
+								sw := c09SubstText(ss, tv, map[string]string{v: w.text})
+								sp := c09SubstText(ss, tv, map[string]string{v: "(" + w.text + ")"})
+								t1, ok1 := exprShape(sw)
+								t2, ok2 := exprShape(sp)
+								if !ok1 || !ok2 || t1 == t2 {
+									continue
+								}
+								want, err := evalType(sp)
+								if err != nil {
+									continue
+								}
+								got, err := evalType(sw)
+								if err != nil {
+									badGroup = fmt.Sprintf("with $%s = `%s` (a %s of type %s) the pattern matches `%s`, and the fix `%s` regroups the operand and no longer type-checks: %v", v, w.text, w.kind, tv[v], pw, sw, err)
+								} else if !types.Identical(got, want) {
+									badGroup = fmt.Sprintf("with $%s = `%s` (a %s of type %s) the fix `%s` regroups the operand and has type %s instead of %s", v, w.text, w.kind, tv[v], sw, got, want)
+								}
+							}
+						}
+					}
+					// (5) the fix can stand wherever the matched expression stood
+					req := parentKindsRequired(r)
+					context := func(tv map[string]string) {
+						p0 := c09SubstText(ps, tv, nil)
+						s0 := c09SubstText(ss, tv, nil)
+						for _, cx := range c09Contexts {
+							if badCtx != "" || parentKindExcluded(r, cx.parent) || (req != nil && !req[cx.parent]) {
+								continue
+							}
+							if _, err := evalType(fmt.Sprintf(cx.tmpl, p0)); err != nil {
+								continue // the matched expression cannot stand in this context
+							}
+							sw := fmt.Sprintf(cx.tmpl, s0)
+							sp := fmt.Sprintf(cx.tmpl, "("+s0+")")
+							t1, ok1 := exprShape(sw)
+							t2, ok2 := exprShape(sp)
+							if !ok1 || !ok2 || t1 == t2 {
+								continue
+							}
+							want, err := evalType(sp)
+							if err != nil {
+								continue
+							}
+							got, err := evalType(sw)
+							if err != nil {
+								badCtx = fmt.Sprintf("`%s` is valid Go; replacing the matched call by the fix text gives `%s`, which regroups and does not type-check: %v (the rule does not exclude a parent of kind %s)", fmt.Sprintf(cx.tmpl, p0), sw, err, cx.parent)
+							} else if !types.Identical(got, want) {
+								badCtx = fmt.Sprintf("`%s` is valid Go; replacing the matched call by the fix text gives `%s` of type %s instead of %s (the rule does not exclude a parent of kind %s)", fmt.Sprintf(cx.tmpl, p0), sw, got, want, cx.parent)
+							}
+						}
+					}
 					var rec func(k int, tv map[string]string)
 					rec = func(k int, tv map[string]string) {
 						if bad != "" {
@@ -317,6 +616,10 @@ func init() {
 								return
 							}
 							anyTyping = true
+							if sOK && same {
+								grouping(tv)
+								context(tv)
+							}
 							if !sOK || !same {
 								var parts []string
 								for _, v := range vars {
@@ -341,6 +644,8 @@ func init() {
 						nbounded++
 					}
 					c.direct = append(c.direct, &directResult{Name: pn + "/fix-type-checks-and-keeps-the-type", OK: bad == "", Detail: fmt.Sprintf("pattern %q, fix %q: %s", pat, r.Suggest, bad)})
+					c.direct = append(c.direct, &directResult{Name: pn + "/compound-operands-keep-their-grouping-in-the-fix", OK: badGroup == "", Detail: fmt.Sprintf("pattern %q, fix %q: %s", pat, r.Suggest, badGroup)})
+					c.direct = append(c.direct, &directResult{Name: pn + "/fix-can-stand-where-the-match-stood", OK: badCtx == "", Detail: fmt.Sprintf("pattern %q, fix %q: %s", pat, r.Suggest, badCtx)})
 				}
 			}
 		}
